@@ -44,6 +44,7 @@ Inductive stmt : Type :=
 | SPut (t f : string) (k v : expr)
 | SIf (c : expr) (a b : list stmt)
 | SFor (t f : string) (body : list stmt)
+| SWhile (c : expr) (body : list stmt)     (* general while loop: outside the executable subset, kept for analyses *)
 | SCall (f : string) (args : list expr)
 | SContinue
 | SReturn (e : expr)
@@ -422,6 +423,7 @@ Fixpoint exec (s : stmt) (st : state) {struct s} : result :=
       | None =>
           match call_sem o f args st with Some (_, st') => Some (FNormal, st') | None => None end
       end
+  | SWhile _ _ => None
   | SContinue => Some (FContinue, st)
   | SReturn _ => Some (FReturn, st)
   | SOpaque _ => None
